@@ -34,9 +34,9 @@ Proof.
 Qed.
 
 Lemma literal_bad lex k s st c :
-  Rt s st -> literal lex k s = SBad c -> catalogued c = true -> exists e, decode_literal lex k st = Err e.
+  Rt s st -> literal lex k s = SBad c -> catalogued c = true -> exists e, decode_literal Generic lex k st = Err e.
 Proof.
-  intros HR. unfold literal, decode_literal. destruct k as [|tg|d]; [discriminate| |].
+  intros HR. unfold literal, decode_literal. cbn [mk_literal bind]. destruct k as [|tg|d]; [discriminate| |].
   - destruct (is_nil tg); [|discriminate]. intros H; inversion H; subst. discriminate.
   - rewrite (r_datatypes _ _ HR). destruct (d =? 0) eqn:Ed.
     + intros _ _. destruct (nlen (s_datatypes s) =? 0); [eauto|]. unfold decode_datatype_term_index, lift, bind. rewrite Ed. eauto.
